@@ -43,6 +43,7 @@ type tresp struct {
 type blockT struct {
 	*stt
 	blockWrite, blockFlush bool
+	blockClose             bool // Close of the underlying transport stalls (a peer that does not take the closing handshake)
 	release                chan struct{}
 	wrote                  chan []byte
 }
@@ -56,6 +57,12 @@ func (b *blockT) Write(p []byte) (int, error) {
 	default:
 	}
 	return len(p), nil
+}
+func (b *blockT) Close() error {
+	if b.blockClose {
+		<-b.release
+	}
+	return b.stt.Close()
 }
 func (b *blockT) Flush(ctx context.Context) error {
 	if b.blockFlush {
@@ -128,7 +135,7 @@ func timing(q treq) tresp {
 	cleanup := func() {}
 	switch q.Transport {
 	case "adapter":
-		bt := &blockT{stt: newStt(), blockWrite: q.Stall == "write", blockFlush: q.Stall == "flush",
+		bt := &blockT{stt: newStt(), blockWrite: q.Stall == "write", blockFlush: q.Stall == "flush", blockClose: q.Stall == "closing",
 			release: make(chan struct{}), wrote: make(chan []byte, 4)}
 		tr = frugal.NewAdapterTransport(bt)
 		if err := tr.Open(); err != nil {
@@ -140,6 +147,11 @@ func timing(q treq) tresp {
 				time.Sleep(time.Duration(q.LateMs) * time.Millisecond)
 				bt.reads <- frameFor(opid, 1)
 			}()
+		}
+		if q.Stall == "closing" {
+			// somebody closes the transport and the close stalls; a call made meanwhile still has its deadline
+			go tr.Close()
+			time.Sleep(3 * time.Millisecond)
 		}
 		cleanup = func() { close(bt.release); tr.Close() }
 	case "nats":
